@@ -25,6 +25,11 @@ def canon_imm(mn, imm):
     return imm - (1 << 20) if (mn == 'c.lui' and 0xfffe0 <= imm <= 0xfffff) else imm
 
 
+def forward_opt_job(mn):
+    """The forward sweep of one mnemonic once more in a `python -O` child: validation that lives in assert statements is gone there."""
+    return env.run_optimized('checks.c02', 'forward_job', (mn,))
+
+
 def forward_job(mn):
     asm = env.load_asm()
     res = env.Result()
@@ -45,7 +50,7 @@ def forward_job(mn):
             n += 1
             try:
                 code = fn(*[f[k] for k in names])
-            except ValueError:
+            except Exception:   # any exception is a refusal (today always ValueError)
                 continue
             named = dict(f)
             if has_imm:
@@ -145,6 +150,60 @@ def reverse_job(lo, hi):
     return res
 
 
+def expr_forms(v, k):
+    """The integer v written as arithmetic (docs: immediates may be expressions); several forms start with a bare decimal 0..31,
+    a spelling that is also a register name."""
+    a = [0, 1, 2, 4, 8, 16, 31, 5][k % 8]
+    forms = ['%d + %d' % (a, v - a) if v - a >= 0 else '%d - %d' % (a, a - v), '%d+%d' % (a, v - a) if v - a >= 0 else '%d-%d' % (a, a - v),
+             '%d * 1' % v if v >= 0 else '-1 * %d' % -v, '1 * %d' % v if v >= 0 else '%d * -1' % -v, '%d + (%d)' % (a, v - a), 'EXK_1 + %d' % (v - 1) if v >= 1 else 'EXK_1 - %d' % (1 - v),
+             '%d - EXK_1' % (v + 1) if v + 1 >= 0 else '-%d - EXK_1' % -(v + 1), '%d << 1 >> 1' % v if v >= 0 else '-(%d)' % -v, '%d | 0' % v if v >= 0 else '~%d' % (~v)]
+    if v % 4 == 0 and v > 0:
+        forms += ['4 * %d' % (v // 4), '%d << 2' % (v // 4), '2 * 2 * %d' % (v // 4)]
+    if v % 2 == 0 and v > 0:
+        forms += ['2 * %d' % (v // 2)]
+    return forms
+
+
+def text_expr_job(mn):
+    """Every c.* mnemonic with an immediate: a sample of legal immediates written as arithmetic expressions must give the halfword of the
+    literal spelling."""
+    asm = env.load_asm()
+    res = env.Result()
+    names = rvref.C_OPERANDS[mn]
+    lo, hi, mult = rvref.C_IMM_RANGE[mn]
+    vals = sorted({v for v in [lo, lo + mult, lo + 2 * mult, hi, hi - mult, hi - 2 * mult, 0, mult, -mult, 2 * mult, 4 * mult, 12, 20, 16, 24, 48, -16, 64, 100, 124, 256]
+                   if lo <= v <= hi and v % mult == 0})
+    regsets = [[8, 9], [15, 8], [10, 12]] if any(n in names for n in ('rs1', 'rs2')) or mn in ('c.addi4spn', 'c.srli', 'c.srai', 'c.andi', 'c.beqz', 'c.bnez') else [[5, 6], [1, 3], [31, 15], [8, 9]]
+    cases = []
+    for v in vals:
+        for regs in regsets:
+            f = dict(zip([n for n in names if n != 'imm'], regs))
+            f['imm'] = v
+            try:
+                h = rvref.enc16(mn, f)
+            except Exception:
+                continue
+            if rvref.dec16(h) != (rvref.LEGAL, mn, f):
+                continue
+            for k, e in enumerate(expr_forms(v, v // max(mult, 1) + regs[0])):
+                cases.append((h, mn + ' ' + ', '.join(e if n == 'imm' else 'x%d' % f[n] for n in names)))
+            break
+    res.evaluations = len(cases)
+    for h, line in cases:
+        try:
+            out = bytes(asm.assemble('EXK_1 = 1\n' + line + '\n'))
+        except Exception as e:
+            res.fail('textexpr:refused:%s' % mn, 'line %r (a legal immediate written as arithmetic) is refused: %s' % (line, str(e)[-160:]), {'kind': 'text', 'source': 'EXK_1 = 1\n' + line + '\n', 'halfword': h})
+            continue
+        if out != struct.pack('<H', h):
+            res.fail('textexpr:%s' % mn, 'line %r assembles to %s, the literal spelling gives 0x%04x' % (line, out.hex(), h), {'kind': 'text', 'source': 'EXK_1 = 1\n' + line + '\n', 'halfword': h})
+        else:
+            res.nontrivial_count += 1
+    if cases:
+        res.sample({'expression_immediate': cases[len(cases) // 2][1]})
+    return res
+
+
 def text_forward_job(mn, seed):
     """Thorough only: the forward window through the text front end (register spellings vary)."""
     asm = env.load_asm()
@@ -196,6 +255,12 @@ def run(tier):
     chk.merge(env.run_shards(forward_job, jobs))
     accepted = sum(v for k, v in chk.res.classes.items() if k.startswith('accepted:'))
     chk.merge(env.run_shards(reverse_job, [(a, a + 2048) for a in range(0, 0x10000, 2048)]))
+    chk.merge(env.run_shards(text_expr_job, [(mn,) for mn in rvref.C_MNEMONICS if 'imm' in rvref.C_OPERANDS[mn]]))
+    opt = env.run_shards(forward_opt_job, jobs)
+    for r in opt:
+        r.classes = {k: v for k, v in r.classes.items() if not k.startswith('accepted:')}   # (counted once, above)
+        r.samples = []
+    chk.merge(opt)
     legal = chk.res.classes.get('legal_halfwords', 0)
     if legal != 28461:
         raise env.HarnessError('rvref counts %d legal halfwords, expected 28461' % legal)
@@ -208,8 +273,8 @@ def run(tier):
     chk.extra['accepted_canonical_tuples'] = accepted
     chk.extra['legal_halfwords'] = legal
     chk.rule = ('forward: complete product registers 0..31 x immediates in [lo-2*span, hi+2*span] per c.* mnemonic through the '
-                'encoder API (thorough: also through the text front end); reverse: all 65,536 halfwords, canonical text of every '
-                'LEGAL one assembled. non-trivial = accepted tuples + legal halfwords (distinct by construction)')
+                'encoder API, in the normal interpreter and again in `python -O` children (thorough: also through the text front end); reverse: all 65,536 halfwords, canonical text of every '
+                'LEGAL one assembled; legal immediates of every c.* mnemonic also written as arithmetic expressions (a + b, a * b, with a constant, shifts ...). non-trivial = accepted tuples + legal halfwords (distinct by construction)')
     chk.assumptions = ['rvref.dec16/enc16 transcribed from the RVC chapter; 28,461 legal non-hint RV32C integer halfwords']
     return chk.finish()
 
@@ -220,7 +285,11 @@ def replay(path):
     case = body['case']
     asm = env.load_asm()
     why = None
-    if case['kind'] == 'api':
+    if case['kind'] == 'api' and case.get('optimize'):
+        r = forward_opt_job(case['mn'])
+        if r.failures:
+            why = r.failures[0]['what']
+    elif case['kind'] == 'api':
         mn, f = case['mn'], case['fields']
         try:
             code = apimap.call_encoder(asm, mn, f)
@@ -230,7 +299,7 @@ def replay(path):
             cls, m2, f2 = rvref.dec16(code & 0xffff)
             if cls != rvref.LEGAL or m2 != mn or f2 != named:
                 why = '%s %r accepted and encoded as 0x%04x, which is %s %s %r' % (mn, f, code, cls, m2, f2)
-        except ValueError:
+        except Exception:   # any exception is a refusal (today always ValueError)
             pass
     elif case['kind'] == 'text':
         try:
